@@ -58,6 +58,40 @@ class FnRecord:
     manual: list = field(default_factory=list)
     body_head_gen_line: int = 0
     contracted: bool = False
+    callees: list = field(default_factory=list)   # names in call position in the SOURCE text of the item
+    n_closures: int = 0                            # closure expressions in the SOURCE text of the item
+
+
+KW_NOCALL = {'if', 'while', 'match', 'for', 'return', 'loop', 'fn', 'in', 'as', 'let', 'else', 'move', 'unsafe', 'where', 'impl', 'mut', 'ref',
+             'break', 'continue', 'self', 'super', 'crate'}
+
+
+def shape_of(toks, lo, hi):
+    """(callee names, number of closure expressions) of the source tokens toks[lo:hi] -- what the item asks of code outside itself"""
+    sig = [t for t in toks[lo:hi] if t.kind not in ('ws', 'comment')]
+    callees, closures = set(), 0
+    i, n = 0, len(sig)
+    while i < n:
+        t = sig[i]
+        if t.kind == 'ident' and t.text not in KW_NOCALL and not t.text[0].isupper():
+            pv = sig[i - 1] if i > 0 else None
+            nx = sig[i + 1] if i + 1 < n else None
+            if not (pv is not None and pv.kind == 'ident' and pv.text == 'fn') and nx is not None and nx.kind == 'punct':
+                if nx.text == '(':
+                    callees.add(t.text)
+                elif nx.text == ':' and i + 3 < n and sig[i + 2].text == ':' and sig[i + 3].text == '<':
+                    callees.add(t.text)
+        elif t.kind == 'punct' and t.text == '|':
+            pv = sig[i - 1] if i > 0 else None
+            start = pv is None or (pv.kind == 'punct' and pv.text in '(,=>{;&:') or (pv.kind == 'ident' and pv.text in ('move', 'return', 'else'))
+            if start:
+                closures += 1
+                j = i + 1
+                while j < n and not (sig[j].kind == 'punct' and sig[j].text == '|'):
+                    j += 1
+                i = j
+        i += 1
+    return sorted(callees), closures
 
 
 class SrcCache:
@@ -233,6 +267,7 @@ class Unit:
         opts = [c[1].strip() for c in clauses if c[0] == 'opt']
         rec = FnRecord(self.name, rel, selector, item.name, cmd, hashlib.sha256(verbatim.encode()).hexdigest(),
                        src.line_of(toks[item.kw].start), [])
+        rec.callees, rec.n_closures = shape_of(toks, item.start, item.end)
         edits = []
         local_counts = {}
 
@@ -358,6 +393,16 @@ class Unit:
         for c in clauses:
             if c[0] in ('replace', 'outline'):
                 mm = re.match(r'`(.*?)`(?:#(\d+))?\s*=>\s*`(.*?)`\s*(?:::\s*(.*))?$', c[1], re.S)
+                alts = re.findall(r'`([^`]*)`(?:#(\d+))?\s*=>\s*`([^`]*)`', c[1]) if '||' in c[1] else []
+                if len(alts) > 1 and re.fullmatch(r'\s*(?:`[^`]*`(?:#\d+)?\s*=>\s*`[^`]*`\s*(?:\|\|)?\s*)+', c[1]):
+                    # alternatives `A` => `X` || `B` => `Y`: the code has ONE of the listed shapes (e.g. one of two named constants as an argument);
+                    # the alternative that is present is rewritten, each to its own helper, so the verifier sees which shape the code has
+                    live = [(o, n_, w) for (o, n_, w) in alts if len(list(flex_regex(o).finditer(verbatim))) >= 1]
+                    if len(live) == 1:
+                        mm = re.match(r'`(.*?)`(?:#(\d+))?\s*=>\s*`(.*?)`\s*(?:::\s*(.*))?$', '`%s`%s => `%s`' % (live[0][0], ('#' + live[0][1]) if live[0][1] else '', live[0][2]), re.S)
+                    else:
+                        self.hints_dropped.append('%s :: %s: %s alternatives `%s` | ...: %d of them present' % (rel, selector, c[0], alts[0][0], len(live)))
+                        continue
                 if not mm:
                     raise GenError('%s:%d bad %s directive' % (tplpath, c[2], c[0]))
                 old, ordn, new, reason = mm.group(1), mm.group(2), mm.group(3), mm.group(4) or ''
